@@ -185,6 +185,23 @@ unsafe impl Sync for BlockAllocator {}
 // thread-affine resources; moving it to another thread is safe.
 unsafe impl Send for BlockAllocator {}
 
+#[cfg(walrus_verif)]
+pub(crate) fn verif_file_states() -> Vec<(String, u16, u16, u16, bool)> {
+    let map = FileStateTracker::map();
+    let Ok(r) = map.read() else { return Vec::new() };
+    r.iter()
+        .map(|(p, st)| {
+            (
+                p.clone(),
+                st.locked_block_ctr.load(Ordering::Acquire),
+                st.checkpoint_block_ctr.load(Ordering::Acquire),
+                st.total_blocks.load(Ordering::Acquire),
+                st.is_fully_allocated.load(Ordering::Acquire),
+            )
+        })
+        .collect()
+}
+
 pub(super) fn flush_check(file_path: String) {
     // readiness check fast path; hook actual reclamation later
     if let Some((locked, checkpointed, total, fully_allocated)) =
